@@ -257,7 +257,7 @@ func TestC15(t *testing.T) {
 					}
 					s.deadline = time.Now().Add(time.Duration(op.mult) * max(reqRx, time.Duration(op.txMs*1000+250)*time.Microsecond))
 				case "sleep":
-					time.Sleep(time.Duration(op.ms) * time.Millisecond)
+					time.Sleep(time.Duration(op.ms)*time.Millisecond + 371300*time.Nanosecond) // never exactly on a detection deadline (whole ms, or + k*0.25 ms)
 					synctest.Wait()
 					tick()
 				case "send":
